@@ -21,9 +21,15 @@ def obsStr (s : Sim) : String :=
       some s!" g{i}={if s.st.stage ≥ 5 && s.st.lazyFresh.getD i false then 1 else 0}/{s.st.evals.getD i 0}"
     else if s.custom.getD i false then some s!" c{i}={s.st.calls.getD i 0}"
     else none)
-  s!"{s.st.stage}" ++ String.join parts
+  let mflags := String.join (ME.all.map (fun e => if s.st.mvalid e then "1" else "0"))
+  s!"{s.st.stage}" ++ String.join parts ++ s!" m={mflags}"
 
-def findClass (name : String) : Option FClass := Gen.table.find? (fun c => c.name == name)
+/-- `Class` or `Class@g`: a user-written (`Force::Custom`) element with a state parameter of its own invalidating stage g -/
+def findClass (name : String) : Option FClass :=
+  match name.splitOn "@" with
+  | [n] => Gen.table.find? (fun c => c.name == n)
+  | [n, g] => (Gen.table.find? (fun c => c.name == n)).map (fun c => { c with paramStages := [g.toNat!] })
+  | _ => none
 
 /-- `I model nf {cls custom enabled zeroMag}*` -/
 def parseModel (toks : List String) : Option Sim :=
@@ -45,6 +51,17 @@ def parseModel (toks : List String) : Option Sim :=
     go n rest [] [] [] []
   | _ => none
 
+def parseME (n : String) : Option ME :=
+  match n with
+  | "pk" => some .pk | "cbi" => some .cbi | "abi" => some .abi | "vk" => some .vk | "abv" => some .abv
+  | _ => none
+
+def setterIdx (name : String) : Option Nat :=
+  let l := Gen.gravitySetters.map (·.1)
+  match l.findIdx? (· == name) with
+  | some k => some k
+  | none => none
+
 def parseOp (toks : List String) : Option Op :=
   match toks with
   | ["setT", v] => some (.setT v.toNat!)
@@ -53,7 +70,11 @@ def parseOp (toks : List String) : Option Op :=
   | ["setZ", v] => some (.setZ v.toNat!)
   | ["setParam", i, j, v] => some (.setParam i.toNat! j.toNat! v.toNat!)
   | ["setEnabled", i, b] => some (.setEnabled i.toNat! (b == "1"))
-  | ["gravSet", i, j, v, z] => some (.gravSet i.toNat! j.toNat! v.toNat! (z == "1"))
+  | ["gravSet", i, j, v, z, name] => (setterIdx name).map (fun k => .gravSet i.toNat! j.toNat! v.toNat! (z == "1") k)
+  | ["setInst", v] => some (.setInst v.toNat!)
+  | ["setOpt", v] => some (.setOpt v.toNat!)
+  | ["mRealize", e] => (parseME e).map .mRealize
+  | ["mInvalidate", e] => (parseME e).map .mInvalidate
   | ["realize", g] => some (.realize g.toNat!)
   | ["gravQuery", i] => some (.gravQuery i.toNat!)
   | ["peQuery"] => some .peQuery
@@ -62,7 +83,7 @@ def parseOp (toks : List String) : Option Op :=
 /-- `check`: realize the history state to Acceleration and compare its totals with a fresh State's; the fresh
 State's realization uses the same force objects, whose counters therefore advance too -/
 def doCheck (s : Sim) : Sim × Bool :=
-  let st1 := s.st.realize s.fs 8
+  let st1 := step s.fs (s.st.realize s.fs 8) (.mRealize .cbi)     -- the comparison also asks for composite-body inertias
   let f0 := fresh s.fs st1.vars
   let f1 := ({ f0 with calls := st1.calls, evals := st1.evals } : St).realize s.fs 8
   ({ s with st := { st1 with calls := f1.calls, evals := f1.evals } }, st1.total != f1.total)
